@@ -197,6 +197,10 @@ def boundary_values(sd, r, rng, extra=6):
                 s.update([prev - 1, prev, prev + 1])
         prev = d
     s.update([vals[-1] - 1, vals[-1]])
+    # truncation aliases: values congruent to a discriminant modulo a narrower width
+    for d in (vals[0], vals[-1], vals[len(vals) // 2]):
+        for w in (8, 16, 32, 64):
+            s.update([d + (1 << w), d - (1 << w), d + (1 << (w - 1)), d ^ (1 << w) if d >= 0 else d - (1 << w)])
     for _ in range(extra):
         s.add(rng.randint(lo, hi))
         s.add(rng.choice(vals) + rng.randint(-3, 3))
@@ -408,6 +412,15 @@ class Corpus:
         self.add_decl("R", "i8", [0, 1, 2, 3], ["table", "match"], note="D2 gapless table range a>b")
         self.add_decl("R", "i8", [0, 1, 2, 9], ["table", "match"], note="D2 holes table range a>b")
         self.add_decl("R", "i16", [-300, -299, -2, -1, 0, 5], ["table", "auto"], note="negative runs i16")
+        # discriminants further apart than 2^63 / 2^31 / 2^15: any comparison by subtraction or narrowing goes wrong
+        rng = self.rng
+        for r in ("i64", "i128", "isize"):
+            wide = sorted({rng.randint(-(1 << 63), (1 << 63) - 1) for _ in range(14)} | {-(1 << 63) + 1, (1 << 63) - 2, -1, 0})
+            self.add_decl("R", r, wide, ["table", "match"], note="wide spread over i64")
+        self.add_decl("R", "u64", sorted({rng.randint(0, (1 << 63) - 1) for _ in range(14)} | {0, (1 << 63) - 1}), ["auto", "table"],
+                      note="wide spread u64")
+        self.add_decl("R", "i32", sorted({rng.randint(-(1 << 31), (1 << 31) - 1) for _ in range(14)} | {-(1 << 31), (1 << 31) - 1}),
+                      ["table", "match"], note="wide spread i32")
 
     # --- exhaustive small scope: every non-empty subset of a window at the ends of i8/u8 and around 0
     def fam_small_scope(self):
